@@ -11,6 +11,7 @@ mod c06;
 mod cmodel;
 mod oracle;
 mod c07;
+mod c07der;
 mod c08;
 mod c09;
 mod c10;
